@@ -271,6 +271,35 @@ func (ti *tableInterp) run(fn *ssa.Function, args []TVal, depth int) (TVal, erro
 				return TVal{Kind: "other"}, nil
 			}
 			return val(x.Results[0])
+		case *ssa.Alloc:
+			// the backing array of a list of names (`[]string{"a", "b"}`: the argument of an
+			// inlined helper whose loop over it was unrolled); never a table value
+			if at, ok := x.Type().Underlying().(*types.Pointer); ok {
+				if arr, ok := at.Elem().Underlying().(*types.Array); ok && isStringType(arr.Elem()) {
+					env[x] = TVal{Kind: "other"}
+					continue
+				}
+			}
+			return TVal{}, fmt.Errorf("%s: unsupported allocation at %s (initialiser is not a plain sequence of Set calls)", fn.Name(), ti.c.InstrPos(in))
+		case *ssa.IndexAddr:
+			if v, ok := env[x.X]; ok && v.Kind == "other" {
+				env[x] = TVal{Kind: "other"}
+				continue
+			}
+			return TVal{}, fmt.Errorf("%s: unsupported element address at %s", fn.Name(), ti.c.InstrPos(in))
+		case *ssa.Store:
+			if v, ok := env[x.Addr]; ok && v.Kind == "other" {
+				if _, isC := x.Val.(*ssa.Const); isC {
+					continue
+				}
+			}
+			return TVal{}, fmt.Errorf("%s: unsupported store at %s", fn.Name(), ti.c.InstrPos(in))
+		case *ssa.Slice:
+			if v, ok := env[x.X]; ok && v.Kind == "other" {
+				env[x] = TVal{Kind: "other"}
+				continue
+			}
+			return TVal{}, fmt.Errorf("%s: unsupported slice expression at %s", fn.Name(), ti.c.InstrPos(in))
 		default:
 			return TVal{}, fmt.Errorf("%s: unsupported instruction %T at %s (initialiser is not a plain sequence of Set calls)", fn.Name(), in, ti.c.InstrPos(in))
 		}
